@@ -2,11 +2,24 @@ import Gv.Model.SW
 import Gv.Spec.SW
 import Gv.Proofs.SWSpec
 import Gv.Proofs.SWFill
+import Gv.Proofs.SWTrace
 /-!
 # C09 — pairwise local alignment is valid, self-consistent and optimal
 
-Property theorems about `Gv.Model.SW` (model of `align/aligner.go`) and `Gv.Spec.SW` (independent
+Property theorems about `Gv.Model.SW` (model of `align/aligner.go`, shipped code `fixed = false` and
+code with `proposed_fixes/c09-aligner.diff` applied `fixed = true`) and `Gv.Spec.SW` (independent
 meaning).  All statements are for **all** inputs (induction; no bound on lengths or scores).
+
+* validity — `sw_valid` (trace-back, any score / trace matrix, both stop rules), `sw_align_valid`
+  (whole call, both variants), `sw_rows_denote_local_alignment`;
+* the reference optimum — `enum_complete`, `enum_optimal`, `gotoh_upper_bound`, `gotoh_attained`,
+  `gotoh_eq_enum`;
+* score consistency and optimality of the repaired code — `sw_score_is_optimum`,
+  `sw_score_of_returned_rows`, `sw_optimal` (C09's two score clauses at full strength),
+  `sw_score_attained`; for the shipped code these are false, with kernel-checked counter-examples.
+
+Helper developments: `Gv.Proofs.SWSpec` (specification side), `Gv.Proofs.SWFill` (what the repaired
+fill computes), `Gv.Proofs.SWTrace` (what the trace-back returns on locally consistent matrices).
 -/
 namespace Gv.Props.C09
 open Gv Gv.Model Gv.Model.SW
@@ -674,48 +687,131 @@ theorem sw_score_is_optimum (den : Int) (s1 s2 : Seq) (go ge : Option Int) (mm :
         · simp at h
     · simp at h
 
-/-
-**sw_optimal** (full strength; OPEN — one conjunct not proved).  For the repaired code:
+/-- what a successful `Alignment()` went through -/
+private theorem align_ok_inv {a : Aligner} {fixed : Bool} {s1 s2 : Seq} {r : Result}
+    (h : align a fixed s1 s2 = Outcome.ok r) :
+    ∃ i1 i2, seqToIndices a s1 = some i1 ∧ seqToIndices a s2 = some i2 ∧ s1 ≠ [] ∧ s2 ≠ [] ∧
+      backTrack fixed a.gapopen a.gapextend (fill a fixed (s1.zip i1) (s2.zip i2)).m
+        (fill a fixed (s1.zip i1) (s2.zip i2)).t s1 s2 (fill a fixed (s1.zip i1) (s2.zip i2)).best.score
+        (fill a fixed (s1.zip i1) (s2.zip i2)).best.i (fill a fixed (s1.zip i1) (s2.zip i2)).best.j = some r := by
+  simp only [align] at h
+  split at h
+  · simp at h
+  · split at h
+    · rename_i i1 i2 hi1 hi2
+      split at h
+      · simp at h
+      · rename_i hne
+        simp only [Bool.or_eq_true, List.isEmpty_iff, not_or] at hne
+        split at h
+        · rename_i r' hbt
+          simp only [Outcome.ok.injEq] at h
+          subst h
+          exact ⟨i1, i2, hi1, hi2, hne.1, hne.2, hbt⟩
+        · simp at h
+    · simp at h
 
-  theorem sw_optimal (den : Int) (s1 s2 : Seq) (go ge : Option Int) (mm : Option (Int × Int)) (r : Result)
-      (hgap : (configure den s1 s2 go ge mm).gapopen ≤ (configure den s1 s2 go ge mm).gapextend ∧
-              (configure den s1 s2 go ge mm).gapextend < 0)
-      (h : align (configure den s1 s2 go ge mm) true s1 s2 = Outcome.ok r)
-      (hpos : ∃ p1 p2 cols, Spec.SW.IsLocal s1 s2 p1 p2 cols ∧
-                0 < Spec.SW.score (schemeOf (configure den s1 s2 go ge mm)) cols) :
-      (∃ cols, Spec.SW.colsOfRows r.row1 r.row2 = some cols ∧
-          r.score = Spec.SW.score (schemeOf (configure den s1 s2 go ge mm)) cols) ∧            -- (A) OPEN
-      (∀ p1 p2 cols, Spec.SW.IsLocal s1 s2 p1 p2 cols →
-          Spec.SW.score (schemeOf (configure den s1 s2 go ge mm)) cols ≤ r.score)              -- (B) proved
+/-- **sw_score_of_returned_rows** — for the repaired code, whenever the reported score is positive
+the two returned rows, read column by column, are an alignment whose affine-gap score under the
+configured scheme is exactly the reported score. -/
+theorem sw_score_of_returned_rows (den : Int) (s1 s2 : Seq) (go ge : Option Int) (mm : Option (Int × Int))
+    (r : Result)
+    (hgap : (configure den s1 s2 go ge mm).gapopen ≤ (configure den s1 s2 go ge mm).gapextend ∧
+            (configure den s1 s2 go ge mm).gapextend < 0)
+    (h : align (configure den s1 s2 go ge mm) true s1 s2 = Outcome.ok r) (hpos : 0 < r.score) :
+    ∃ cols, Spec.SW.colsOfRows r.row1 r.row2 = some cols ∧
+      Spec.SW.score (schemeOf (configure den s1 s2 go ge mm)) cols = r.score := by
+  have hvalid := sw_align_valid true den s1 s2 go ge mm r h
+  have hopt := sw_score_is_optimum den s1 s2 go ge mm r hgap h
+  have ha := configure_chartopos den s1 s2 go ge mm
+  generalize configure den s1 s2 go ge mm = a at h hgap hopt ha
+  obtain ⟨i1, i2, hi1, hi2, hne1, hne2, hbt⟩ := align_ok_inv h
+  have hl1 := mapM_length _ _ _ (seqToIndices_eq a s1 ▸ hi1)
+  have hl2 := mapM_length _ _ _ (seqToIndices_eq a s2 ▸ hi2)
+  have hz1 := mapM_zip_mem _ _ _ (seqToIndices_eq a s1 ▸ hi1)
+  have hz2 := mapM_zip_mem _ _ _ (seqToIndices_eq a s2 ▸ hi2)
+  have hg1 := seqToIndices_no_gap a ha s1 i1 hi1
+  have hg2 := seqToIndices_no_gap a ha s2 i2 hi2
+  have hm1 : (s1.zip i1).map (·.1) = s1 := List.map_fst_zip (by omega)
+  have hm2 : (s2.zip i2).map (·.1) = s2 := List.map_fst_zip (by omega)
+  have hsub : ∀ c1 ∈ s1.zip i1, ∀ c2 ∈ s2.zip i2, matchScore a c1 c2 = (schemeOf a).sub c1.1 c2.1 := by
+    intro c1 h1 c2 h2
+    show matchScore a c1 c2 = matchScore a (c1.1, (idxOf a c1.1).getD 0) (c2.1, (idxOf a c2.1).getD 0)
+    rw [hz1 c1 h1, hz2 c2 h2]; rfl
+  have cert := Proofs.SWTrace.fill_cert a (schemeOf a) rfl rfl hgap.1 hgap.2 (s1.zip i1) (s2.zip i2) hsub
+  rw [hm1, hm2] at cert
+  have hsc := backTrack_score hbt
+  have hcell := Proofs.SWTrace.fill_best_cell a (s1.zip i1) (s2.zip i2) (by rw [← hsc]; exact hpos)
+  generalize fill a true (s1.zip i1) (s2.zip i2) = f at hbt cert hsc hcell
+  obtain ⟨hbi, hbj, hbm⟩ := hcell
+  have hz1l : (s1.zip i1).length = s1.length := by simp [List.length_zip]; omega
+  have hz2l : (s2.zip i2).length = s2.length := by simp [List.length_zip]; omega
+  rw [hz1l] at hbi
+  rw [hz2l] at hbj
+  simp only [backTrack] at hbt
+  split at hbt
+  · simp at hbt
+  · rename_i pi pj st hloop
+    simp only [Option.some.injEq] at hbt
+    obtain ⟨L, hL, hs⟩ := Proofs.SWTrace.btLoop_score (schemeOf a) hgap.1 hgap.2 cert hg1 hg2
+      (f.best.i + f.best.j + 2) (f.best.i + 1) (f.best.j + 1) {} [] (by omega) (by omega) (by omega) (by omega)
+      (by simp only [Nat.add_sub_cancel]; rw [hbm, ← hsc]; exact hpos) (by omega) rfl hloop
+    simp only [Nat.add_sub_cancel, List.append_nil] at hL hs
+    have hr1 : r.row1 = st.r1 := by rw [← hbt]
+    have hr2 : r.row2 = st.r2 := by rw [← hbt]
+    refine ⟨L, by rw [hr1, hr2]; exact hL, ?_⟩
+    obtain ⟨cols', hc', hloc, _, _⟩ := sw_rows_denote_local_alignment s1 s2 r hvalid
+    rw [hr1, hr2, hL] at hc'
+    simp only [Option.some.injEq] at hc'
+    subst hc'
+    have hub := Spec.SW.gotoh_upper (schemeOf a) hloc
+    rw [← hopt] at hub
+    rw [hbm] at hs
+    omega
 
-It is FALSE for the shipped code (`fixed = false`): see the `example`s below.  Proved instead:
-`sw_optimal_partial` = conjunct (B) at full strength plus "some local alignment scores exactly the
-reported score"; what is missing for (A) is that this alignment is the *returned* one.
--/
+/-- **sw_optimal** — C09's score clauses at full strength, for the repaired code: for every pair of
+sequences, the built-in matrices or any match/mismatch scores, and any gap penalties with
+`gapopen ≤ gapextend < 0`, whenever some local alignment has a positive score,
 
-/-- **sw_optimal_partial** — for the repaired code and every input: no local alignment of the two
-sequences scores higher than the reported score, and some local alignment scores exactly that.
-Missing for `sw_optimal`: that the alignment attaining the score is the one *returned*
-(trace/matrix consistency of the fill: `DIAG` cells hold diagonal + substitution score, `UP`/`LEFT`
-cells hold a gap of the length the trace-back recovers).  That conjunct is evaluated by the oracle on
-every generated case (verdict clause `score-self`). -/
-theorem sw_optimal_partial (den : Int) (s1 s2 : Seq) (go ge : Option Int) (mm : Option (Int × Int)) (r : Result)
+* (A) the reported score equals the score of the returned alignment under the configured scheme, and
+* (B) no local alignment of the two sequences scores higher.
+
+It is FALSE for the shipped code (`fixed = false`): see the `example`s below. -/
+theorem sw_optimal (den : Int) (s1 s2 : Seq) (go ge : Option Int) (mm : Option (Int × Int)) (r : Result)
+    (hgap : (configure den s1 s2 go ge mm).gapopen ≤ (configure den s1 s2 go ge mm).gapextend ∧
+            (configure den s1 s2 go ge mm).gapextend < 0)
+    (h : align (configure den s1 s2 go ge mm) true s1 s2 = Outcome.ok r)
+    (hpos : ∃ p1 p2 cols, Spec.SW.IsLocal s1 s2 p1 p2 cols ∧
+              0 < Spec.SW.score (schemeOf (configure den s1 s2 go ge mm)) cols) :
+    (∃ cols, Spec.SW.colsOfRows r.row1 r.row2 = some cols ∧
+        r.score = Spec.SW.score (schemeOf (configure den s1 s2 go ge mm)) cols) ∧
+    (∀ p1 p2 cols, Spec.SW.IsLocal s1 s2 p1 p2 cols →
+        Spec.SW.score (schemeOf (configure den s1 s2 go ge mm)) cols ≤ r.score) := by
+  have hopt := sw_score_is_optimum den s1 s2 go ge mm r hgap h
+  have hB : ∀ p1 p2 cols, Spec.SW.IsLocal s1 s2 p1 p2 cols →
+      Spec.SW.score (schemeOf (configure den s1 s2 go ge mm)) cols ≤ r.score := by
+    intro p1 p2 cols hl; rw [hopt]; exact Spec.SW.gotoh_upper _ hl
+  obtain ⟨p1, p2, cols, hl, hp⟩ := hpos
+  have hrpos : 0 < r.score := Int.lt_of_lt_of_le hp (hB p1 p2 cols hl)
+  obtain ⟨c, hc, hs⟩ := sw_score_of_returned_rows den s1 s2 go ge mm r hgap h hrpos
+  exact ⟨⟨c, hc, hs.symm⟩, hB⟩
+
+/-- corollary: some local alignment attains the reported score even when it is 0 -/
+theorem sw_score_attained (den : Int) (s1 s2 : Seq) (go ge : Option Int) (mm : Option (Int × Int)) (r : Result)
     (hgap : (configure den s1 s2 go ge mm).gapopen ≤ (configure den s1 s2 go ge mm).gapextend ∧
             (configure den s1 s2 go ge mm).gapextend < 0)
     (h : align (configure den s1 s2 go ge mm) true s1 s2 = Outcome.ok r) :
-    (∀ p1 p2 cols, Spec.SW.IsLocal s1 s2 p1 p2 cols →
-        Spec.SW.score (schemeOf (configure den s1 s2 go ge mm)) cols ≤ r.score) ∧
-    (∃ p1 p2 cols, Spec.SW.IsLocal s1 s2 p1 p2 cols ∧
-        Spec.SW.score (schemeOf (configure den s1 s2 go ge mm)) cols = r.score) := by
+    ∃ p1 p2 cols, Spec.SW.IsLocal s1 s2 p1 p2 cols ∧
+      Spec.SW.score (schemeOf (configure den s1 s2 go ge mm)) cols = r.score := by
   rw [sw_score_is_optimum den s1 s2 go ge mm r hgap h]
-  exact ⟨fun _ _ _ hl => Spec.SW.gotoh_upper _ hl, Spec.SW.gotoh_attained _ s1 s2⟩
+  exact Spec.SW.gotoh_attained _ s1 s2
 
 /-- score, rows of an outcome (for stating concrete instances) -/
 def scoreRows : Outcome → Option (Int × Seq × Seq)
   | .ok r => some (r.score, r.row1, r.row2)
   | _ => none
 
-/-- the hypotheses of `sw_score_is_optimum` / `sw_optimal_partial` are satisfiable: repaired code on
+/-- the hypotheses of `sw_score_is_optimum` / `sw_optimal` are satisfiable: repaired code on
 `CGA` / `CATCA` (10, −1, −3, −0.5): reported 17 (×2 = 34) = Gotoh optimum -/
 example :
     let a := configure 2 [67, 71, 65] [67, 65, 84, 67, 65] (some (-6)) (some (-1)) (some (20, -2))
@@ -723,7 +819,14 @@ example :
       Spec.SW.gotohBest (schemeOf a) [67, 71, 65] [67, 65, 84, 67, 65] = 34 := by
   decide
 
-/-- `sw_optimal` fails for the shipped code, 1: the best cell lies on the border and is not tracked.
+/-- … including "some local alignment has a positive score": `C` / `C` at offsets (0, 0) scores 10 -/
+example :
+    let a := configure 2 [67, 71, 65] [67, 65, 84, 67, 65] (some (-6)) (some (-1)) (some (20, -2))
+    Spec.SW.IsLocal [67, 71, 65] [67, 65, 84, 67, 65] 0 0 [Spec.SW.Col.pair 67 67] ∧
+      0 < Spec.SW.score (schemeOf a) [Spec.SW.Col.pair 67 67] ∧ a.gapopen ≤ a.gapextend ∧ a.gapextend < 0 :=
+  ⟨⟨by decide, by decide, ⟨[71, 65], rfl⟩, ⟨[65, 84, 67, 65], rfl⟩⟩, by decide, by decide, by decide⟩
+
+/-- `sw_optimal` fails for the shipped code (`fixed = false`), 1: the best cell lies on the border and is not tracked.
 `A` / `A`, match 1: reported score 0, the returned rows `A` / `A` are worth 1 (×2 = 2). -/
 example :
     let a := configure 2 [65] [65] (some (-4)) (some (-2)) (some (2, -2))
